@@ -98,9 +98,26 @@ def rich_table():
     }
 
 
-def deep(n, kind='alt'):
+def nesting(v):
+    """Number of container levels of a field value (a scalar has 0)."""
+    depth, stack = 0, [(v, 0)]
+    while stack:
+        x, d = stack.pop()
+        if isinstance(x, dict):
+            depth = max(depth, d + 1)
+            stack.extend((c, d + 1) for c in x.values())
+        elif isinstance(x, list):
+            depth = max(depth, d + 1)
+            stack.extend((c, d + 1) for c in x)
+    return depth
+
+
+MAX_DEPTH = 32      # the nesting every encoder/decoder must handle (C03)
+
+
+def deep(n, kind='alt', leaf=1):
     """A value nested n levels deep. kind: 'list', 'dict', 'alt', 'alt2'."""
-    v = 1
+    v = leaf
     for i in range(n):
         use_list = {'list': True, 'dict': False, 'alt': i % 2 == 0,
                     'alt2': i % 2 == 1}[kind]
